@@ -616,8 +616,10 @@ func genCfg(repo string) {
 	}
 	dgUpd, dgWrites := devgasWithdrawerRule(repo)
 	epVal, epConds, epSwallow := epochsValidateRule(repo)
-	fmt.Printf("Definition current_cfg : cfg := {| c_rid := %s; c_tf_keeps_bank_md := %s; c_pair_json_id := %s; c_dg_upd := %s; c_ep_val := %s; c_ep_swallow := %s |}.\n",
-		rid, CoqBool(keeps), CoqBool(pairID), dgUpd, epVal, CoqBool(epSwallow))
+	epStart, epStartCond := epochsStartTimeRule(repo)
+	fmt.Printf("Definition current_cfg : cfg := {| c_rid := %s; c_tf_keeps_bank_md := %s; c_pair_json_id := %s; c_dg_upd := %s; c_ep_val := %s; c_ep_swallow := %s; c_ep_start := %s |}.\n",
+		rid, CoqBool(keeps), CoqBool(pairID), dgUpd, epVal, CoqBool(epSwallow), epStart)
+	fmt.Printf("(* AddEpochInfo rewrites StartTime when: %s *)\n", strings.ReplaceAll(epStartCond, "*)", "* )"))
 	fmt.Printf("(* EpochInfo.Validate rejects when: %s *)\n", strings.ReplaceAll(strings.Join(epConds, " | "), "*)", "* )"))
 	fmt.Printf("(* writes to FeeShare.WithdrawerAddress in x/devgas/v1/{keeper,types}: %s *)\n", strings.ReplaceAll(strings.Join(dgWrites, " | "), "*)", "* )"))
 	fmt.Printf("(* unsafeGenesisInsertDenom: %s *)\n", strings.ReplaceAll(src, "*)", "* )"))
@@ -727,6 +729,56 @@ func epochsValidateRule(repo string) (string, []string, bool) {
 		}
 	}
 	return rule, conds, swallow
+}
+
+// epochsStartTimeRule: the condition under which Keeper.AddEpochInfo (the import path) REWRITES the StartTime of an
+// epoch with the block time (the if statement whose body assigns `<epoch>.StartTime = ctx.BlockTime()`; parameter
+// renamed to e).  Only a zero time -> EpStZeroOnly; zero, or not counting and before the block time ->
+// EpStZeroOrPastUnstarted; anything else -> EpStUnknown.
+func epochsStartTimeRule(repo string) (string, string) {
+	fd := Funcs(ParseDir(repo + "/x/epochs/keeper"))["AddEpochInfo"]
+	if fd == nil || fd.Body == nil {
+		return "EpStUnknown", "AddEpochInfo not found"
+	}
+	param := "epoch"
+	for _, p := range fd.Type.Params.List {
+		if strings.Contains(Nospace(p.Type), "EpochInfo") && len(p.Names) > 0 {
+			param = p.Names[0].Name
+		}
+	}
+	var conds []string
+	writes := 0
+	ast.Inspect(fd.Body, func(n ast.Node) bool {
+		switch x := n.(type) {
+		case *ast.AssignStmt:
+			for _, l := range x.Lhs {
+				if sel, ok := l.(*ast.SelectorExpr); ok && sel.Sel.Name == "StartTime" {
+					writes++
+				}
+			}
+		case *ast.IfStmt:
+			for _, st := range x.Body.List {
+				if as, ok := st.(*ast.AssignStmt); ok && len(as.Lhs) == 1 && len(as.Rhs) == 1 {
+					if sel, ok := as.Lhs[0].(*ast.SelectorExpr); ok && sel.Sel.Name == "StartTime" && Nospace(as.Rhs[0]) == "ctx.BlockTime()" {
+						c := regexp.MustCompile(`\b`+regexp.QuoteMeta(param)+`\.`).ReplaceAllString(Src(x.Cond), "e.")
+						conds = append(conds, strings.ReplaceAll(c, " ", ""))
+					}
+				}
+			}
+		}
+		return true
+	})
+	if len(conds) != 1 || writes != 1 {
+		return "EpStUnknown", strings.Join(conds, " | ")
+	}
+	switch conds[0] {
+	case "e.StartTime.Equal(time.Time{})", "e.StartTime.IsZero()", "(e.StartTime.Equal(time.Time{}))":
+		return "EpStZeroOnly", conds[0]
+	case "e.StartTime.Equal(time.Time{})||(!e.EpochCountingStarted&&e.StartTime.Before(ctx.BlockTime()))",
+		"e.StartTime.Equal(time.Time{})||!e.EpochCountingStarted&&e.StartTime.Before(ctx.BlockTime())":
+		return "EpStZeroOrPastUnstarted", conds[0]
+	}
+	return "EpStUnknown", conds[0]
 }
 
 // devgasWithdrawerRule: every place the x/devgas code writes the WithdrawerAddress of a FeeShare (assignments
